@@ -312,7 +312,7 @@ func (p *Parser) ParseArgs(args []string) ([]string, error) {
 		p.eachOption(func(c *Command, g *Group, option *Option) {
 			err := option.clearDefault()
 			if err != nil {
-				if _, ok := err.(*Error); !ok {
+				if ferr, ok := err.(*Error); !ok || ferr == nil {
 					err = p.marshalError(option, err)
 				}
 				s.err = err
@@ -573,7 +573,9 @@ func (p *Parser) parseOption(s *parseState, name string, option *Option, canarg 
 	}
 
 	if err != nil {
-		if _, ok := err.(*Error); !ok {
+		// A nil *Error in a non-nil error (returned by an option callback)
+		// is reported like any other error of the callback
+		if ferr, ok := err.(*Error); !ok || ferr == nil {
 			err = p.marshalError(option, err)
 		}
 	}
@@ -590,9 +592,9 @@ func (p *Parser) marshalError(option *Option, err error) *Error {
 		s = s + " (expected " + expected + ")"
 	}
 
-	return newErrorf(ErrMarshal, s+": %s",
+	return newErrorf(ErrMarshal, s+": %v",
 		option,
-		err.Error())
+		err)
 }
 
 func (p *Parser) expectedType(option *Option) string {
